@@ -86,7 +86,9 @@ out=["# Property-breaking changes written by independent sub-agents","",
 "Each sub-agent got only the text of one property and a scratch worktree of coyim/otr3 and was asked for a change that breaks the property,",
 "compiles, keeps the repository's own 743 tests green, and needs something specific to manifest; plus a demonstration test.",
 "Every change was confirmed in a scratch worktree (`tools/seedeval.sh`): compiles, suite green, demonstration fails with / passes without the change.",
-"The checks were then run against the changed tree (quick tier).","",
+"The checks were then run against the changed tree (quick tier).",
+"`patch.diff` applies to /repo's current HEAD (`git -C /repo apply seeded/<id>/patch.diff`); where a later `fix:` commit touched the same lines the",
+"change was carried over by hand (same mutation) and the author's original is kept as `patch.orig.diff`.","",
 "| property | confirmed | check verdict when first tried | check verdict now (quick tier) | strengthening made because of it |","|---|---|---|---|---|"]
 for r in rows:
     out.append("| %s | %s | %s | %s | %s |"%(r[0], 'yes' if r[1] else 'NO', r[2], r[3].replace('|','/')[:300], r[4]))
